@@ -19,7 +19,7 @@ def _has_diff(script, target=None):
     try:
         diffs, _, _ = run.compare([script], procs=1)
     except Exception:
-        return True
+        return False          # a candidate the harness cannot even run is not a smaller witness
     if target is None:
         return len(diffs) > 0
     return any((d[2].split('\n')[0], d[3], d[4]) == target for d in diffs)
